@@ -230,6 +230,7 @@ const nonNilKeyword = "nonnil"
 var annotationKeyword = fmt.Sprintf("(%s|%s)", nilableKeyword, nonNilKeyword)
 
 const sep = ","
+
 // identRegexStr matches a Go identifier: a letter or underscore followed by letters, digits and underscores
 // (https://go.dev/ref/spec#Identifiers).
 const identRegexStr = `[\p{L}_][\p{L}\p{Nd}_]*`
